@@ -484,11 +484,11 @@ def replay_printer(tree_repr):
 def check(argv):
     tier, seed = env_tier_seed(argv)
     report = Report("C06", tier, seed, "other", f"./vt check C06 --tier {tier}")
-    layout_obligation(report)
-    printer_contracts(report)
+    report.guarded("struct layout", layout_obligation, report)
+    report.guarded("C printer contracts", printer_contracts, report)
     from contracts import llvm_emitters
 
-    llvm_emitters.run(report)
+    report.guarded("LLVM emitter contracts", llvm_emitters.run, report)
     from standins import kernels as K
 
     fam = K.family(tier, seed, 6 if tier == "quick" else 60)
